@@ -24,6 +24,9 @@ func (c *Ctx) intercept(fr *frame, fn *ssa.Function, args []value, pos token.Pos
 	name := fn.String()
 	// 1. harness primitives
 	if p, ok := prims[fn.Name()]; ok && fn.Pkg != nil && c.eng.isPrimFile(fn) {
+		if c.specDepth > 0 {
+			panic(specAbort{"harness primitive"})
+		}
 		return p(c, fr, fn, args, pos), true
 	}
 	// 2. stubs
@@ -34,6 +37,9 @@ func (c *Ctx) intercept(fr *frame, fn *ssa.Function, args []value, pos token.Pos
 	}
 	// 3. intrinsics
 	if in, ok := intrinsics[name]; ok {
+		if c.specDepth > 0 && !pureIntrinsic[name] {
+			panic(specAbort{"impure intrinsic " + name})
+		}
 		for _, a := range args {
 			if p, isP := a.(poison); isP {
 				return p, true
@@ -55,6 +61,9 @@ func (c *Ctx) intercept(fr *frame, fn *ssa.Function, args []value, pos token.Pos
 }
 
 func (c *Ctx) pkgPolicy(fr *frame, fn *ssa.Function, path string, args []value, pos token.Pos) (value, bool) {
+	if strings.HasPrefix(path, "github.com/prometheus/") {
+		return zeroResults(fn.Signature), true
+	}
 	switch path {
 	case "github.com/sirupsen/logrus":
 		n := fn.Name()
